@@ -264,6 +264,8 @@ func awkwardCatalogue() []named {
 		// same shape, but a DIFFERENT struct type (embedded field exported on one side only), nil pointers inside slices, []any of mixed things
 		{"stack-awkward-leaves", awkwardLeafStack(true)},
 		{"stack-awkward-maps", awkwardMapStack(true)},
+		{"stack-awkward-nils", awkwardNilStack(true)},
+		{"stack-awkward-nils2", awkwardNilStack(false)},
 		{"cond-awkward-leaf", stackage.Cond("k", stackage.Eq, eqStructX{A: 1, C: "c"})},
 	}
 }
@@ -276,6 +278,16 @@ func awkwardMapStack(other bool) stackage.Stack {
 		k2 = "c"
 	}
 	return stackage.And().Push(map[float64]int{math.NaN(): 1}, map[string]int{"a": 1, k2: 2}, map[string]any{"x": nil, k2: 1})
+}
+
+// awkwardNilStack: the same shapes with nil pointers on ONE side only (live element against nil element, both ways round)
+func awkwardNilStack(other bool) stackage.Stack {
+	var np *int
+	one, two := 1, 2
+	if other {
+		return stackage.And().Push([]*int{np, &two}, [2]*int{&one, np}, map[string]*int{"k": np})
+	}
+	return stackage.And().Push([]*int{&one, &two}, [2]*int{&one, &two}, map[string]*int{"k": &one})
 }
 
 func awkwardLeafStack(other bool) stackage.Stack {
@@ -445,6 +457,8 @@ func liveStackMakers() []recvMaker {
 		}},
 		recvMaker{"AND-awkward-leaves", "Stack", func() any { return awkwardLeafStack(false) }},
 		recvMaker{"AND-awkward-maps", "Stack", func() any { return awkwardMapStack(false) }},
+		recvMaker{"AND-awkward-nils", "Stack", func() any { return awkwardNilStack(false) }},
+		recvMaker{"AND-awkward-nils2", "Stack", func() any { return awkwardNilStack(true) }},
 		recvMaker{"AND-shared-encap", "Stack", func() any {
 			// the encapsulation schemes of parent and child are slices of ONE backing array, the parent's with spare capacity:
 			// a query that appends to what it was given would write into the child's configuration
